@@ -269,6 +269,12 @@ def find_status(r, ret):
         t = d[0]
         if t[0] == 's' and name and t[2].startswith(name) and t[1] == 8:
             return t
+    # an `==` ladder tests eq(status, CONST) instead of switching on the status itself
+    from .c03 import syms_of
+    for d in r.state.decisions:
+        for t in sorted(syms_of(d[0]), key=lambda x: x[2]):
+            if name and t[2].startswith(name) and t[1] == 8:
+                return t
     # undecided (NORMAL/otherwise arm taken without refinement is impossible: the switch always records a decision)
     for d in r.state.decisions:
         if d[0][0] == 's' and d[0][1] == 8:
